@@ -20,7 +20,7 @@ C12 regress/C12-counter-nonzero-5445450760368162252.json 9fd999f
 C12 regress/C12-counter-nonzero-7603118085941297519.json c385cf7
 C12 regress/C12-counter-nonzero-1182017169601261124.json f49c7eb
 C11 regress/C11-proto-extra-reply-8697307517601547343.json 1791069
-C05 regress/C05-panic-5491909683352039282.json 6ab2777
+C05 regress/C05-panic-544459143161652846.json 6ab2777
 C17 regress/C17-gcrange-wbuf-race.json e04f813
 C11 regress/C11-proto-roundtrip-reply-3369049078810884284.json 5896adf
 C07 regress/C07-shutdown-during-gc-3563302134185838027.json 93602c9
